@@ -106,7 +106,8 @@ void clmNames(Ctx& ctx)
 	auto bytes = ref::encodeWav(w);
 	// base names of 1, 7, 8 (fit) and 9, 10, 12, 13, 16 (do not fit) characters x extensions of every length incl. none:
 	// the 8-character limit applies to the name without its extension, whatever the extension looks like
-	for (const std::string& base : { std::string("a"), std::string("abcdefg"), std::string("abcdefgh"), std::string("ABCDEFG8"), std::string("abcdefghi"), std::string("a23456789"), std::string("abcdefghij"), std::string("twelvechars_"), std::string("thirteenchars"), std::string("abcdefghijklmnop") })
+	for (const std::string& base : { std::string("a"), std::string("abcdefg"), std::string("abcdefgh"), std::string("ABCDEFG8"), std::string("abcdefghi"), std::string("a23456789"), std::string("abcdefghij"), std::string("twelvechars_"), std::string("thirteenchars"), std::string("abcdefghijklmnop"),
+		std::string("track\\boss0001"), std::string("a\\b"), std::string("long name with spaces") })   // a backslash is an ordinary file name character here
 	for (const std::string& ext : { std::string(".wav"), std::string(".WAV"), std::string(""), std::string(".w"), std::string(".wv"), std::string(".wave"), std::string(".") }) {
 		std::string p = dir + "/" + base + ext;
 		mc::writeFile(p, bytes);
